@@ -11,6 +11,7 @@ import (
 	"strings"
 	"sync"
 	"sync/atomic"
+	"time"
 )
 
 // Event kinds. All events of one scenario live in ONE log, appended under one
@@ -41,6 +42,7 @@ const (
 // Event is one entry of the merged log.
 type Event struct {
 	Seq  int         `json:"seq"`
+	US   int64       `json:"us"` // microseconds since the log was created (information only, never used by an oracle)
 	Kind string      `json:"kind"`
 	K    int         `json:"k,omitempty"`
 	ID   string      `json:"id,omitempty"`
@@ -54,7 +56,7 @@ type Event struct {
 
 func (e Event) String() string {
 	var sb strings.Builder
-	fmt.Fprintf(&sb, "%d %s", e.Seq, e.Kind)
+	fmt.Fprintf(&sb, "%d +%dus %s", e.Seq, e.US, e.Kind)
 	switch e.Kind {
 	case EvReadEnter, EvReadError:
 		fmt.Fprintf(&sb, " k=%d", e.K)
@@ -92,6 +94,7 @@ func (e Event) String() string {
 
 // Log is the single, mutex-ordered event log of a scenario.
 type Log struct {
+	t0     time.Time
 	mu     sync.Mutex
 	events []Event
 	n      int64
@@ -100,12 +103,13 @@ type Log struct {
 	OnAdd func(e *Event)
 }
 
-func NewLog() *Log { return &Log{} }
+func NewLog() *Log { return &Log{t0: time.Now()} }
 
 // Add appends e and returns its sequence number.
 func (l *Log) Add(e Event) int {
 	l.mu.Lock()
 	e.Seq = len(l.events)
+	e.US = int64(time.Since(l.t0) / time.Microsecond)
 	if l.OnAdd != nil {
 		l.OnAdd(&e)
 	}
